@@ -250,6 +250,12 @@ def coq_compile_properties(pid, timeout=900):
     return rc == 0, log
 
 
+def coqchk(pid, timeout=1500):
+    """Independent re-check of the compiled property file and everything it depends on."""
+    rc, log = run(["timeout", str(timeout), "coqchk", "-o", "-silent", "-Q", ".", "BFL", "BFL.Properties_%s" % pid], cwd=COQ, timeout=timeout + 60)
+    return rc == 0, log
+
+
 def parse_properties(pid):
     """Theorem names and Print Assumptions targets of Properties_<pid>.v, in file order."""
     txt = strip_comments(read(os.path.join(COQ, "Properties_%s.v" % pid)).decode())
